@@ -41,6 +41,8 @@ THEOREMS = [
     "Aio.C15.follow_only_via_links",
     "Aio.C15.listing_only_if_enabled",
     "Aio.C15.sibling_not_followed",
+    "Aio.C15.regular_file_served",
+    "Aio.C15.confined_history",
     "Aio.C15.absolute_filename_rejected",
 ]
 RULE = ("(1) FileResponse over real files of sizes 0..6 (+ one 70-byte file) through the in-memory server: every "
@@ -56,7 +58,13 @@ RULE = ("(1) FileResponse over real files of sizes 0..6 (+ one 70-byte file) thr
         "chains, loops, dangling, out-and-back, FIFO, pre-compressed siblings incl. a symlinked one, a sibling directory whose "
         "name extends the root's): targets from a traversal grammar (dot segments, %2e, %2f, %5c, %25-double encoding, %00, "
         "//, absolute and drive/UNC forms, non-normalised prefixes) x (follow_symlinks, show_index) x 2 prefixes x "
-        "Accept-Encoding. A case is distinct by (config, request); non-trivial when the route matched or a Range/conditional "
+        "Accept-Encoding; pre-compressed sibling names occupied by every file type (regular, link to file / directory / FIFO / outside, "
+        "directory, socket, FIFO - writer ends held open so a wrong open() cannot block -, missing) x every Accept-Encoding. "
+        "(2b) file-system HISTORIES on one app / one StaticResource: request, change the tree (file -> link outside, missing -> link outside, "
+        "directory -> directory link outside, link outside -> file, link inside <-> link outside, loop -> link outside, content rewritten / "
+        "deleted / recreated, sibling becomes directory / FIFO / socket / regular / link outside, file <-> directory, parent replaced by a "
+        "link), request again; every GET is judged against, and compared with the model on, the tree as it is at that moment. "
+        "A case is distinct by (config, request); non-trivial when the route matched or a Range/conditional "
         "header was present.")
 TRUSTED_BASE = [
     "yarl: `rel_url.path_safe` of the request target is read from the real request and handed to the model (oracle column)",
@@ -829,9 +837,14 @@ def check_http_range(ctx):
 
 
 # ------------------------------------------------------------------------------------ part 2: confinement
-def _mk(path, content=None, link=None, fifo=False, isdir=False):
+def _mk(path, content=None, link=None, fifo=False, isdir=False, sock=False):
     os.makedirs(os.path.dirname(path), exist_ok=True)
-    if isdir:
+    if sock:
+        import socket
+        sk = socket.socket(socket.AF_UNIX, socket.SOCK_STREAM)
+        sk.bind(path)          # leaves a socket inode behind
+        sk.close()
+    elif isdir:
         os.makedirs(path, exist_ok=True)
     elif link is not None:
         os.symlink(link, path)
@@ -852,6 +865,8 @@ class Tree:
         files = ["root/a.txt", "root/sub/b.txt", "root/sub/deep/c.txt", "root/a.txt.gz", "root/z.txt.gz", "root/sub/b.txt.gz",
                  "root/sp ace.txt", "root/%41.txt", "root/back\\slash.txt", "root/C:", "root/...", "root/caf\u00e9.txt", "root/sub/..b",
                  "root/%2e%2e", "root/sub/q%2Fr", "root/fifo.gz",
+                 # regular files whose pre-compressed sibling NAME is taken by something that is not a regular file
+                 "root/d1.txt", "root/d1.txt.gz/inner.txt", "root/s1.txt", "root/p1.txt", "root/sub/n1.txt", "root/l1.txt",
                  "outside/secret.txt", "outside/secret.txt.gz", "outside/dir/x.txt", "outside/a.txt", "rootx/evil.txt", "root.txt"]
         for rel in files:
             _mk(os.path.join(B, rel), content=("LOC:" + rel + "\n").encode() + b"payload\x00\xff")
@@ -869,10 +884,40 @@ class Tree:
         for rel, target in links.items():
             _mk(os.path.join(B, rel), link=target)
         _mk(os.path.join(B, "root/fifo"), fifo=True)
+        _mk(os.path.join(B, "root/s1.txt.gz"), sock=True)
+        _mk(os.path.join(B, "root/s1.txt.br"), isdir=True)
+        _mk(os.path.join(B, "root/p1.txt.br"), fifo=True)
+        _mk(os.path.join(B, "root/p1.txt.gz"), fifo=True)
+        _mk(os.path.join(B, "root/sub/n1.txt.br"), isdir=True)
+        _mk(os.path.join(B, "root/sub/n1.txt.gz"), fifo=True)
+        _mk(os.path.join(B, "root/l1.txt.gz"), link="d1.txt.gz")        # link to a directory
+        _mk(os.path.join(B, "root/l1.txt.br"), link="p1.txt.br")        # link to a FIFO
         self.root = os.path.join(B, "root")
+        self.ids = {}     # real rel path -> id (stable across rescans)
+        self._fifo_fds = []
+        self.rescan()
+
+    def hold_fifos(self):
+        """keep a writer end open on every FIFO of the tree: an implementation that (wrongly) opens one must not block the
+        whole process - it gets an empty, never-ending pipe whose fstat size is 0"""
+        for fd in self._fifo_fds:
+            os.close(fd)
+        self._fifo_fds = []
+        for dp, dns, fns in os.walk(self.B, followlinks=False):
+            for n in fns:
+                p = os.path.join(dp, n)
+                if statmod.S_ISFIFO(os.lstat(p).st_mode):
+                    self._fifo_fds.append(os.open(p, os.O_RDWR | os.O_NONBLOCK))
+
+    def write(self, rel, tag=""):
+        """(re)write a regular file whose content names its real location"""
+        _mk(os.path.join(self.B, rel), content=("LOC:" + rel + "\n").encode() + b"payload\x00\xff" + tag.encode())
+
+    def rescan(self):
+        B = self.B
+        self.hold_fifos()
         # table for the model: lstat of everything under B, plus B's ancestors as directories
         self.table = []   # (abs path str, node str)
-        self.ids = {}     # real rel path -> id
         parts = B.split("/")[1:]
         for i in range(1, len(parts) + 1):
             self.table.append(("/" + "/".join(parts[:i]), "d"))
@@ -884,7 +929,7 @@ class Tree:
                 elif statmod.S_ISDIR(s.st_mode):
                     node = "d"
                 elif statmod.S_ISREG(s.st_mode):
-                    rel = os.path.relpath(p, B); self.ids[rel] = len(self.ids) + 1
+                    rel = os.path.relpath(p, B); self.ids.setdefault(rel, len(self.ids) + 1)
                     node = "f%d" % self.ids[rel]
                 else:
                     node = "o"
@@ -914,6 +959,9 @@ class Tree:
         return "/".join(st(s) for s in segs) if segs else "/"
 
     def close(self):
+        for fd in self._fifo_fds:
+            os.close(fd)
+        self._fifo_fds = []
         shutil.rmtree(self.B, ignore_errors=True)
 
 
@@ -1008,12 +1056,71 @@ def through_loop(tree, case):
     return False
 
 
+_PLAIN = re.compile(r"[A-Za-z0-9_][A-Za-z0-9._-]*")
+
+
+def expected_plain(tree, case):
+    """(own bytes, {coding: sibling bytes}) when the target names, with plain path segments only, a regular file inside the
+    root that is reached without traversing any link; else None (no positive expectation)."""
+    t = case["target"]
+    if "?" in t or "#" in t or "{" in t:
+        return None
+    if case["prefix"] == "/":
+        if not t.startswith("/"):
+            return None
+        rel = t[1:]
+    else:
+        if not t.startswith(case["prefix"] + "/"):
+            return None
+        rel = t[len(case["prefix"]) + 1:]
+    segs = rel.split("/")
+    if not rel or not all(_PLAIN.fullmatch(x) for x in segs):
+        return None
+    p = os.path.join(tree.root, *segs)
+    try:
+        if os.path.realpath(p) != p or not statmod.S_ISREG(os.lstat(p).st_mode):
+            return None
+        with open(p, "rb") as f:
+            own = f.read()
+    except OSError:
+        return None
+    sibs = {}
+    ae = (case.get("ae") or "").lower()
+    for ext, coding in ((".br", "br"), (".gz", "gzip")):
+        if coding in ae:
+            q = p + ext
+            try:
+                if statmod.S_ISREG(os.lstat(q).st_mode):
+                    with open(q, "rb") as f:
+                        sibs[coding] = f.read()
+            except OSError:
+                pass
+    return own, sibs
+
+
 def oracle_static(ctx, tree, case, status, hdrs, body, rec):
-    """confinement judged on the real response alone"""
+    """confinement and exact bytes judged on the real response alone"""
     follow, show = case["follow"], case["show_index"]
 
     def bad(sig, detail):
-        ctx.violation("C15/" + sig, case, detail + f" [status={status} body={body[:60]!r}]")
+        ctx.violation("C15/" + sig, case, detail + f" [status={status} content-encoding={hdrs.get('content-encoding')!r} body={body[:60]!r}]")
+    # --- a plainly named regular file inside the root must be served: its own bytes, or those of a REGULAR
+    #     pre-compressed sibling whose coding the client accepts
+    exp = expected_plain(tree, case)
+    if exp is not None:
+        own, sibs = exp
+        enc = hdrs.get("content-encoding")
+        ok = status == 200 and ((enc is None and body == own) or (enc is not None and sibs.get(enc) == body))
+        if not ok:
+            if status == 200 and enc is not None and enc not in sibs:
+                bad("content/non-regular-sibling-served", f"answered with Content-Encoding {enc!r} although the only entry named like the "
+                    "pre-compressed sibling is not a regular file; the regular file's own bytes were expected")
+            elif status != 200:
+                bad("content/regular-file-not-served", "the target is a regular file inside the root, named without any link, dot segment or "
+                    "escape; expected 200 with its bytes")
+            else:
+                bad("content/not-exact-bytes", "200 but the body is neither the file's bytes nor those of a regular pre-compressed sibling")
+            return
     if status != 200:
         return
     if hdrs.get("content-type", "").startswith("text/html") and b"Index of /" in body[:200]:
@@ -1131,6 +1238,10 @@ def gen_targets(ctx, tree):
     return out
 
 
+SIBLING_TARGETS = ["a.txt", "sub/b.txt", "z.txt", "d1.txt", "s1.txt", "p1.txt", "sub/n1.txt", "l1.txt", "fifo", "d1.txt.gz", "d1.txt.gz/inner.txt",
+                   "s1.txt.gz", "p1.txt.br", "sub/deep/c.txt", "link_in", "emptydir"]
+
+
 def check_static(ctx):
     tree = Tree()
     try:
@@ -1145,6 +1256,13 @@ def check_static(ctx):
                     continue
                 ae = AE[(i * 7 + j) % len(AE)] if (i + j) % 2 else None
                 cases.append({"kind": "static", "follow": cfg[0], "show_index": cfg[1], "prefix": cfg[2], "target": t, "ae": ae})
+        # pre-compressed sibling names taken by every file type (regular, link to file/dir/FIFO/outside, directory, socket, FIFO,
+        # missing), each with every Accept-Encoding
+        for rel in SIBLING_TARGETS:
+            for cfg in CONFIGS:
+                for ae in (AE if cfg[2] == "/static" else ["gzip, br", "gzip"]):
+                    cases.append({"kind": "static", "follow": cfg[0], "show_index": cfg[1], "prefix": cfg[2],
+                                  "target": ("" if cfg[2] == "/" else cfg[2]) + "/" + rel, "ae": ae})
         bed = StaticBed(tree)
 
         async def main():
@@ -1181,6 +1299,128 @@ def check_static(ctx):
             oracle_static(ctx, tree, c, status, hdrs, body, rec)
             if outs is not None and i in pos:
                 ctx.compare({**c, "path_safe": rec["path_safe"]}, canon, outs[pos[i]], "StaticResource vs Aio.C15.serve")
+    finally:
+        tree.close()
+
+
+# ------------------------------------------------------------------------------------ part 2b: file-system histories
+# One app / one StaticResource serves several requests while the tree changes in between: whatever the route remembers from an
+# earlier request must not decide a later one.  Step = ["get", rel, ae] | ["mut", op, rel, arg].
+def apply_mut(tree, op, rel, arg=None):
+    p = os.path.join(tree.B, rel)
+
+    def rm():
+        if os.path.islink(p) or os.path.isfile(p) or (os.path.lexists(p) and not os.path.isdir(p)):
+            os.unlink(p)
+        elif os.path.isdir(p):
+            shutil.rmtree(p)
+    if op == "write":
+        rm(); tree.write(rel, arg or "")
+    elif op == "link":
+        rm(); _mk(p, link=arg)
+    elif op == "mkdir":
+        rm(); _mk(p, isdir=True)
+    elif op == "fifo":
+        rm(); _mk(p, fifo=True)
+    elif op == "sock":
+        rm(); _mk(p, sock=True)
+    elif op == "rm":
+        rm()
+    else:
+        raise MachineryError(f"unknown mutation {op}")
+    tree.rescan()
+
+
+def history_scripts():
+    """(name, steps); every script works on names of its own below root/h<k>/ (created by its first steps)"""
+    G, M = "get", "mut"
+    out_file, out_dir = "../../outside/secret.txt", "../../outside/dir"
+    S = []
+    S.append(("file-then-link-outside", [[M, "write", "root/H/f.txt"], [G, "H/f.txt", None], [M, "link", "root/H/f.txt", out_file], [G, "H/f.txt", None],
+                                         [G, "H/f.txt", "gzip"], [M, "write", "root/H/f.txt", "v2"], [G, "H/f.txt", None]]))
+    S.append(("missing-then-link-outside", [[M, "mkdir", "root/H"], [G, "H/g.txt", None], [M, "link", "root/H/g.txt", out_file], [G, "H/g.txt", None],
+                                            [M, "rm", "root/H/g.txt"], [G, "H/g.txt", None]]))
+    S.append(("dir-then-dirlink-outside", [[M, "write", "root/H/d/x.txt"], [G, "H/d/x.txt", None], [G, "H/d", None], [M, "link", "root/H/d", out_dir],
+                                           [G, "H/d/x.txt", None], [G, "H/d", None], [G, "H/d/", None]]))
+    S.append(("link-outside-then-file", [[M, "link", "root/H/k.txt", out_file], [G, "H/k.txt", None], [M, "write", "root/H/k.txt"], [G, "H/k.txt", None]]))
+    S.append(("link-inside-then-link-outside", [[M, "write", "root/H/t.txt"], [M, "link", "root/H/m.txt", "t.txt"], [G, "H/m.txt", None],
+                                                [M, "link", "root/H/m.txt", out_file], [G, "H/m.txt", None], [M, "link", "root/H/m.txt", "t.txt"], [G, "H/m.txt", None]]))
+    S.append(("loop-then-link-outside", [[M, "link", "root/H/lp", "lp"], [G, "H/lp", None], [G, "H/lp/../lp", None], [M, "link", "root/H/lp", out_file],
+                                         [G, "H/lp", None]]))
+    S.append(("content-rewritten", [[M, "write", "root/H/c.txt", "one"], [G, "H/c.txt", None], [M, "write", "root/H/c.txt", "two-longer"], [G, "H/c.txt", None],
+                                    [M, "rm", "root/H/c.txt"], [G, "H/c.txt", None], [M, "write", "root/H/c.txt", "3"], [G, "H/c.txt", None]]))
+    for kind in ("mkdir", "fifo", "sock"):
+        S.append((f"sibling-becomes-{kind}", [[M, "write", "root/H/s.txt"], [G, "H/s.txt", "gzip, br"], [M, kind, "root/H/s.txt.gz"], [G, "H/s.txt", "gzip, br"],
+                                              [G, "H/s.txt", "gzip"], [M, kind, "root/H/s.txt.br"], [G, "H/s.txt", "br"], [G, "H/s.txt", None],
+                                              [M, "write", "root/H/s.txt.gz"], [G, "H/s.txt", "gzip"], [M, "link", "root/H/s.txt.gz", out_file], [G, "H/s.txt", "gzip"]]))
+    S.append(("file-becomes-dir-and-back", [[M, "write", "root/H/e"], [G, "H/e", None], [M, "mkdir", "root/H/e"], [G, "H/e", None], [M, "write", "root/H/e/i.txt"],
+                                            [G, "H/e/i.txt", None], [M, "write", "root/H/e"], [G, "H/e", None], [G, "H/e/i.txt", None]]))
+    S.append(("parent-replaced-by-link-inside", [[M, "write", "root/H/p/q.txt"], [M, "write", "root/H/r/q.txt"], [G, "H/p/q.txt", None], [M, "link", "root/H/p", "r"],
+                                                 [G, "H/p/q.txt", None]]))
+    return S
+
+
+async def run_history(ctx, bed, tree, cfg, name, steps, tag):
+    """executes the steps, judging every GET at once (direct oracle, against the tree as it is at that moment);
+    returns [(step, case, status, hdrs, body, rec, fs_col)] of the GET steps for the comparison with the model"""
+    out = []
+    pfx = "" if cfg[2] == "/" else cfg[2]
+    hcase = {"kind": "history", "follow": cfg[0], "show_index": cfg[1], "prefix": cfg[2], "name": name, "steps": steps}
+    for k, stp in enumerate(steps):
+        if stp[0] == "mut":
+            apply_mut(tree, stp[1], stp[2].replace("/H", "/" + tag), stp[3] if len(stp) > 3 else None)
+        else:
+            target = pfx + "/" + stp[1].replace("H/", tag + "/", 1)
+            case = {"kind": "static", "follow": cfg[0], "show_index": cfg[1], "prefix": cfg[2], "target": target, "ae": stp[2]}
+            status, hdrs, body, rec = await bed.run(cfg, target, stp[2])
+            out.append((k, case, status, hdrs, body, rec, tree.fs_col))
+            sub = _Collect()
+            oracle_static(sub, tree, case, status, hdrs, body, rec)
+            for sig, detail in sub.v:
+                ctx.violation(sig.replace("C15/", "C15/history/", 1), {**hcase, "upto": k}, f"step {k} GET {stp[1]} after the tree changed: " + detail)
+    return out
+
+
+def check_histories(ctx):
+    tree = Tree()
+    try:
+        bed = StaticBed(tree)
+        scripts = history_scripts()
+        plan = [(i, j, cfg, name, steps) for i, (name, steps) in enumerate(scripts) for j, cfg in enumerate(CONFIGS) if cfg[2] == "/static" or i % 2 == 0]
+
+        async def main():
+            await bed.start()
+            try:
+                res = []
+                for i, j, cfg, name, steps in plan:
+                    res.append(await run_history(ctx, bed, tree, cfg, name, steps, f"h{i}_{j}"))
+                return res
+            finally:
+                await bed.stop()
+        res, excs, quiescent = vloop.run(main)
+        if res is None:
+            raise MachineryError("history bed did not finish")
+        lines, keys = [], []
+        for (i, j, cfg, name, steps), gets in zip(plan, res):
+            for (k, case, status, hdrs, body, rec, fs_col) in gets:
+                if "path_safe" in rec:
+                    pfx = "" if cfg[2] == "/" else cfg[2]
+                    lines.append("get %s %s %s %s %s %s %s" % (b01(cfg[0]), b01(cfg[1]), st(pfx), tree.path_col(tree.root), st(rec["path_safe"]),
+                                                              st(case["ae"] or ""), fs_col))
+                    keys.append((i, j, k))
+        outs = ctx.model(lines)
+        mout = dict(zip(keys, outs)) if outs is not None else {}
+        for (i, j, cfg, name, steps), gets in zip(plan, res):
+            hcase = {"kind": "history", "follow": cfg[0], "show_index": cfg[1], "prefix": cfg[2], "name": name, "steps": steps}
+            ctx.case(("history", name, cfg), nontrivial=True, sample={"history": name, "config": list(cfg)} if (i + j) % 17 == 0 else None)
+            ctx.hit("history:" + name)
+            # the oracle judges every GET against the tree as it was at that moment: replay the mutations on the side
+            for (k, case, status, hdrs, body, rec, fs_col) in gets:
+                canon = canon_static(tree, None, status, hdrs, body, rec)
+                ctx.hit("history:" + canon.split(" ")[0])
+                if (i, j, k) in mout:
+                    ctx.compare({**hcase, "step": k, "target": case["target"]}, canon, mout[(i, j, k)],
+                                "StaticResource after a change of the tree vs Aio.C15.serve on the current tree")
     finally:
         tree.close()
 
@@ -1258,6 +1498,7 @@ def check(ctx):
     check_files(ctx)
     check_race(ctx)
     check_static(ctx)
+    check_histories(ctx)
     ctx.exhaustive = not ctx.quick
     if not ctx.quick:
         ctx.extra["exhaustive_scope"] = ("all (first,last,suffix) specs over 0..size+2 x sizes 0..6 x GET/HEAD x 5 chunk sizes; all 8x8x5x5 "
@@ -1302,6 +1543,21 @@ def replay(ctx, case):
             oracle_race(ctx, case, old, new if fired else old, resp)
         finally:
             bed.close()
+    elif kind == "history":
+        tree = Tree()
+        try:
+            bed = StaticBed(tree)
+            cfg = (case["follow"], case["show_index"], case["prefix"])
+
+            async def main():
+                await bed.start()
+                try:
+                    await run_history(ctx, bed, tree, cfg, case["name"], case["steps"], "h0_0")
+                finally:
+                    await bed.stop()
+            vloop.run(main)
+        finally:
+            tree.close()
     elif kind == "static":
         tree = Tree()
         try:
